@@ -213,3 +213,13 @@ TEXT["C14"]["text"] += (" C14_heap_*: the typed slices / call logs / All* of a l
 for _p in ("C05", "C06"):
     TEXT[_p]["text"] += (" %s_new_from_*: NewListFrom/NewObjectFrom on nested []any/map[string]any sources only append cells, the result reads back as the value the source denotes, "
                          "leaves that are live containers are stored by reference; such constructors occur in the programs run against the code." % _p)
+
+TEXT["C08"]["text"] += (" C08_every_reachable_state_is_well_formed / C08_every_reachable_state_is_acyclic: the hypotheses of these theorems (well-formed heap, acyclic "
+                        "containers) hold in EVERY state reachable by ANY extended program that obeys two decidable syntactic/step conditions (literal operands are scalars; "
+                        "no step stores a container into something reachable from it), which the runner evaluates on every step of every program it executes (run_okb); "
+                        "C08_reachable_clone_shares_nothing / _history_independent instantiate the Clone theorems there.")
+TEXT["C05"]["text"] += (" Rejected insertions (a value of an unsupported Go type), native slices as values and views whose callback panics are steps of the programs too; "
+                        "they exposed D7 (Insert left a duplicated element behind when the value was rejected), repaired by fix: e647c0d.")
+TEXT["C12"]["text"] += " Rejected insertions are steps of the heap-level programs: nothing may change when parseVal panics (D7, repaired by fix: e647c0d)."
+for _p in ("C01", "C02", "C04", "C16"):
+    TEXT[_p]["note"] += " Float-text contract: F1, F2, F3, F5 (F4 'not an integer literal' is derived: FloatText.ser_float_not_int)."
